@@ -239,7 +239,7 @@ ltostr(char *restrict buf, size_t bsz, long int v,
 
 	if (UNLIKELY((negp = v < 0))) {
 		v = -v;
-	} else if (!v) {
+	} else if (!v && bp < ep) {
 		*bp++ = C(0U);
 		range--;
 	}
@@ -255,12 +255,12 @@ ltostr(char *restrict buf, size_t bsz, long int v,
 		static const char pads[] = " 0";
 		const char p = pads[2U - pad];
 
-		while (range-- > 0) {
+		while (range-- > 0 && bp < ep) {
 			*bp++ = p;
 		}
 	}
 	/* write the sign */
-	if (UNLIKELY(negp)) {
+	if (UNLIKELY(negp) && bp < ep) {
 		*bp++ = '-';
 	}
 
@@ -522,7 +522,7 @@ __strfdtdur(
 	/* assign and go */
 	bp = buf;
 	fp = fmt;
-	if (pre.neg) {
+	if (pre.neg && bsz > 1U) {
 		*bp++ = '-';
 	}
 	for (char *const eo = buf + bsz; *fp && bp < eo;) {
@@ -552,7 +552,9 @@ __strfdtdur(
 
 		case DT_SPFL_N_DSTD:
 			bp += ltostr(bp, eo - bp, pre.d, -1, DT_SPPAD_NONE);
-			*bp++ = 'd';
+			if (bp < eo) {
+				*bp++ = 'd';
+			}
 			goto bizda_suffix;
 
 		case DT_SPFL_N_DCNT_MON: {
@@ -564,7 +566,7 @@ __strfdtdur(
 			bp += ltostr(bp, eo - bp, pre.d, rng, spec.pad);
 		}
 		bizda_suffix:
-			if (spec.bizda) {
+			if (spec.bizda && bp < eo) {
 				/* don't print the b after an ordinal */
 				dt_bizda_param_t bprm;
 
@@ -603,7 +605,9 @@ __strfdtdur(
 				pre.S += pre.rS;
 			}
 			bp += ltostr(bp, eo - bp, pre.S, -1, DT_SPPAD_NONE);
-			*bp++ = 's';
+			if (bp < eo) {
+				*bp++ = 's';
+			}
 			break;
 
 		case DT_SPFL_N_SEC:
@@ -646,6 +650,9 @@ ddiff_prnt(struct dt_dtdur_s dur, const char *fmt, durfmt_t f, bool only_d_p)
 
 	if (res > 0 && buf[res - 1] != '\n') {
 		/* auto-newline */
+		if (UNLIKELY(res >= sizeof(buf))) {
+			res = sizeof(buf) - 1U;
+		}
 		buf[res++] = '\n';
 	}
 	if (res > 0) {
